@@ -1300,6 +1300,11 @@ func areaShapeSpec(c *Ctx) {
 		c.Stat("obligation: contextual nested in contextual (parent x child format)", what)
 		emit(sc, "nested contextual family")
 	}
+	for i := 0; i < shpBetweenCount(); i++ {
+		sc, what := shpBetweenCase(i)
+		c.Stat("obligation: input positions between the components of a nested ligature", what[:9])
+		emit(sc, "between-components family")
+	}
 	for i := 0; i < shpMarkSetCount; i++ {
 		sc, what := shpMarkSetCase(i)
 		c.Stat("obligation: nested lookup with the parent's flags and another filtering set", what[:9])
